@@ -71,6 +71,7 @@ def c01(ctx):
     ctx.stream("rand-real", gen.rand_binary(rng, ops, n))
     ctx.stream("ties", gen.tie_products(rng, n // 8))
     ctx.stream("word-boundary", gen.word_boundary_arith(rng, tiers(ctx, 3000, 50000)))
+    ctx.stream("mode-differs-from-format", gen.rm_mismatch_lines(rng, tiers(ctx, 6000, 80000)))
     # operator spellings (glue): every spelling must equal *_with_rm(sem.mode)
     lines = []
     for _ in range(tiers(ctx, 3000, 30000)):
@@ -124,6 +125,7 @@ def c03(ctx):
     sp = lambda tag: tag in ("c", "x0")
     ctx.stream("special-table", gen.special_lines(fm), exhaustive=True, nontrivial=sp)
     ctx.stream("cancel-real", gen.cancel_lines(rng, tiers(ctx, 3000, 60000)), nontrivial=sp)
+    ctx.stream("mode-differs-from-format", gen.rm_mismatch_lines(rng, tiers(ctx, 6000, 80000), ops=("add", "sub")), nontrivial=sp)
     # every exactly cancelling pair of the small formats comes with the exhaustive enumeration
     small = tiers(ctx, [(2, 2), (2, 3), (3, 3), (3, 4)], gen.SMALL_QUICK + [(4, 4)])
     ctx.stream("exh-small-addsub", gen.exh_binary(["add", "sub"], small, values=gen.all_values), exhaustive=True, nontrivial=sp)
@@ -170,6 +172,7 @@ def c05(ctx):
     lines = ["cmp %s %s %s" % (Sem(E, P, "E"), a, b) for (E, P) in small for a in gen.all_values(Sem(E, P)) + ["X1:0:0"] for b in gen.all_values(Sem(E, P)) + ["X1:0:0"]]
     ctx.stream("exh-small-pairs", lines, exhaustive=True, nontrivial=lambda t: True)
     ctx.stream("real", gen.cmp_lines_real(rng, tiers(ctx, 20000, 300000)), nontrivial=lambda t: True)
+    ctx.stream("word-prefix", gen.word_prefix_cmp_lines(rng, tiers(ctx, 4000, 60000)), nontrivial=lambda t: True)
     return done(ctx)
 
 
@@ -314,6 +317,7 @@ def c09(ctx):
         else:
             big.append("big %s %x/%d %x/%d" % (op, av, la, bv, lb))
     ctx.stream("big-long", big, nontrivial=lambda t: True, chunk_timeout=900)
+    ctx.stream("cmp-common-prefix", gen.big_prefix_cmp_lines(rng, tiers(ctx, 3000, 40000)), nontrivial=lambda t: True)
     return done(ctx)
 
 
@@ -372,7 +376,13 @@ def c15(ctx):
     start(ctx)
     fm = tiers(ctx, gen.TRANS_FMTS_Q + [(12, 300)], gen.TRANS_FMTS_T)
     lines = corpus_lines("C15", {"const"}) + ["const %s %s" % (c, Sem(E, P, m)) for (E, P) in fm for m in MODES for c in ("pi", "e", "ln2")]
-    impl, _ = ctx.stream("constants", lines, nontrivial=lambda t: True, chunk_timeout=1200, per_line_timeout=tiers(ctx, 20, 120))
+    # every precision of a range (the AGM loop of pi gets stuck at scattered precisions only), two modes each, the narrowest exponent width of the domain
+    for P in range(8, tiers(ctx, 300, 1030)):
+        E = next(e for e in range(2, 30) if P <= 2 ** (e - 1) - 2)
+        for m in {MODES[P % 6], "A"}:
+            for c in ("pi", "e", "ln2"):
+                lines.append("const %s %s" % (c, Sem(E, P, m)))
+    impl, _ = ctx.stream("constants", lines, nontrivial=lambda t: True, chunk_timeout=tiers(ctx, 180, 1200), per_line_timeout=tiers(ctx, 20, 120))
     for ln, im in zip(lines, impl):
         _, c, st = ln.split()
         why = oracle.check_const(c, _sem_of(st), im)
@@ -387,7 +397,7 @@ def _fn_check(ctx, names, stream, extra=()):
     rng = random.Random(ctx.seed)
     fm = tiers(ctx, gen.TRANS_FMTS_Q, gen.TRANS_FMTS_T)
     lines = corpus_lines(ctx.pid, {"fn"}) + list(extra) + gen.fn_lines(rng, names, fm, tiers(ctx, 6, 40))
-    impl, _ = ctx.stream(stream, lines, nontrivial=lambda t: t == "n", chunk_timeout=1800, per_line_timeout=tiers(ctx, 20, 120))
+    impl, _ = ctx.stream(stream, lines, nontrivial=lambda t: t == "n", chunk_timeout=tiers(ctx, 400, 1800), per_line_timeout=tiers(ctx, 20, 120))
     for ln, im in zip(lines, impl):
         _, name, st, tok = ln.split()
         why = oracle.check_fn(name, _sem_of(st), tok, im)
@@ -461,7 +471,7 @@ def c18(ctx):
     rng = random.Random(ctx.seed)
     fm = tiers(ctx, gen.TRANS_FMTS_Q, gen.TRANS_FMTS_T)
     lines = corpus_lines("C18", {"pow", "powi"}) + gen.pow_lines(rng, fm, tiers(ctx, 8, 50)) + gen.pow_large_lines(rng, fm + [(11, 24), (12, 30)], tiers(ctx, 60, 600))
-    impl, _ = ctx.stream("pow-powi", lines, nontrivial=lambda t: t in ("n", "-"), chunk_timeout=1800, per_line_timeout=tiers(ctx, 20, 120))
+    impl, _ = ctx.stream("pow-powi", lines, nontrivial=lambda t: t in ("n", "-"), chunk_timeout=tiers(ctx, 600, 1800), per_line_timeout=tiers(ctx, 20, 120))
     for ln, im in zip(lines, impl):
         t = ln.split()
         if t[0] == "pow":
@@ -521,8 +531,9 @@ def c19(ctx):
     wide = gen.wide_exponent_prog_lines(rng, tiers(ctx, 40, 400))
     ctx.stream("wide-exponent-core-release", wide, spec_mode="prog", nontrivial=lambda t: True)
     ctx.stream("wide-exponent-core-dbg", wide, spec_mode="prog", profile="dbg", nontrivial=lambda t: True)
-    ctx.stream("extremes-release", lines, spec_mode="total", nontrivial=lambda t: True, chunk_timeout=900, per_line_timeout=tmo)
-    ctx.stream("extremes-dbg", lines, spec_mode="total", profile="dbg", nontrivial=lambda t: True, chunk_timeout=1800, per_line_timeout=tmo * 2)
+    # (a chunk that is still running after chunk_timeout is killed and its unanswered lines are re-run one by one under per_line_timeout)
+    ctx.stream("extremes-release", lines, spec_mode="total", nontrivial=lambda t: True, chunk_timeout=tiers(ctx, 240, 900), per_line_timeout=tmo)
+    ctx.stream("extremes-dbg", lines, spec_mode="total", profile="dbg", nontrivial=lambda t: True, chunk_timeout=tiers(ctx, 480, 1800), per_line_timeout=tmo * 2)
     ctx.assumptions.append("stack exhaustion, allocation failure and wall-clock time are runtime behaviour the model cannot exhibit: they are observed by the supervised harness (ABORT/HANG attributed to single lines); the fuel/termination theorems cover the logic")
     return done(ctx)
 
@@ -532,7 +543,7 @@ def c20(ctx):
     from . import oracle
     start(ctx)
     rng = random.Random(ctx.seed)
-    lines = corpus_lines("C20", {"frac"}) + gen.frac_lines(rng, tiers(ctx, 4000, 60000))
+    lines = corpus_lines("C20", {"frac"}) + gen.frac_lines(rng, tiers(ctx, 4000, 60000)) + gen.frac_structured_lines(rng, tiers(ctx, 4000, 60000))
     small = [(3, 3), (3, 4), (4, 3)]
     lines += ["frac %s %d %s" % (Sem(E, P), n, a) for (E, P) in small for n in range(0, 7) for a in gen.all_values(Sem(E, P))]
     impl, _ = ctx.stream("as-fraction", lines, nontrivial=lambda t: t == "n", chunk_timeout=900)
